@@ -128,6 +128,7 @@ public:
 	size_t max_reads = 20000, max_bytes = 1u << 20;
 	uint32_t nblocks_hint = 2, nstrings = 3; // values that make sense for REF / STRIDX alphabets
 	uint32_t ref_default = NIF_NPOS;		 // default answer for references
+	int vdesc_set = 0; // 0: single-block set (incl. degenerate descriptors); 1: skinned well-formed set; 2: unskinned well-formed set (linked chains)
 
 	// --- results ---
 	std::string bytes;
@@ -175,6 +176,18 @@ public:
 		}
 	}
 
+	// well-formed descriptors for linked chains: the skinned flag agrees with the presence of a skin instance
+	static uint64_t vdesc_chain(size_t alt, bool skinned) {
+		auto mk = [&](uint64_t flags) { return (flags | (skinned ? 0x40 : 0)) << 44; };
+		switch (alt) {
+			case 0: return mk(0x1 | 0x2 | 0x8 | 0x10);
+			case 1: return mk(0x1 | 0x2);
+			case 2: return mk(0x1 | 0x2 | 0x8 | 0x10 | 0x20);
+			case 3: return mk(0x1 | 0x2 | 0x8 | 0x10 | 0x400 | (skinned ? 0 : 0x100));
+			default: return mk(0x1);
+		}
+	}
+
 	void value(int kind, size_t width, size_t alt, char* out) {
 		uint64_t v = 0;
 		switch (kind) {
@@ -186,7 +199,7 @@ public:
 				if (width == 1) { static const uint64_t a[] = {1, 0, 2, 3}; v = a[alt]; }
 				else if (width == 2) { static const uint64_t a[] = {1, 0, 2, 0x1001}; v = a[alt]; }
 				else if (width == 4) { static const uint64_t a[] = {1, 0, 2, 3, 4, 5, 6, 7, 8, 11, 12, 14, 16}; v = a[alt]; }
-				else if (width == 8) v = vdesc(alt);
+				else if (width == 8) v = vdesc_set == 0 ? vdesc(alt) : vdesc_chain(alt, vdesc_set == 1);
 				break;
 			case K::K_FLOAT: {
 				float f = alt == 0 ? 0.5f + 0.25f * float(float_k++ % 8) : (alt == 1 ? 0.0f : FLT_MAX);
